@@ -36,7 +36,7 @@ ASSUMPTIONS = [
     'neighbour lists from LinkedListNNPS(sort_gids=True) on both sides',
     'serial execution (OpenMP off)',
 ]
-ESSENTIAL_LABELS = {'all': ['shipped', 'bitwise', 'tolerance', 'strided',
+ESSENTIAL_LABELS = {'all': ['shipped', 'generated', 'bitwise', 'tolerance', 'strided',
                             'constant', 'ghosts']}
 SHARD_TIMEOUT = {'quick': 1700, 'thorough': 8 * 3600}
 KERNELS = ['CubicSpline', 'QuinticSpline', 'WendlandQuintic', 'Gaussian',
